@@ -109,6 +109,61 @@ CLAIMED = {
              "every termination callback all ranks are idle and sent == received on every channel; liveness: after all work is completed and "
              "channels drained every rank has had exactly one callback. Real dynamic-termdet runs on 2-3 MPI ranks validate the simulator's call grammar.",
         design_ref="5/C11"),
+    "C26": dict(
+        engine="rc+exhaustive",
+        technique="model-based property testing of parsec_data_start/end_transfer_ownership_to_copy against a version model; exhaustive short histories + rapidcheck",
+        text="Access histories (device, R/W/RW) over 2..3 device copies are executed the way the device layer does (start_transfer, copy, "
+             "end_transfer, version bump) and compared with a model of the newest version. Oracle after every call: at most one OWNED copy and "
+             "owner_device names it, a transfer is requested iff the target is stale, the named source holds the newest version, a write makes "
+             "the target the owner. Every history of length <= 6 over 2 copies and <= 4 over 3 copies from 3 initial configurations is enumerated.",
+        design_ref="5/C26"),
+    "C27": dict(
+        engine="rc+dsched+stress",
+        technique="model-based sequences (rapidcheck) + schedule-owned concurrency (dsched) + stress on arenas and thread mempools with ownership tags under ASan",
+        text="Arenas with generated element sizes, alignments and used/cached limits and thread mempools are driven sequentially against an exact "
+             "model and concurrently under generated schedules. Oracle: every live block is aligned, large enough, tagged over its whole size and "
+             "never overlaps or is handed out twice; allocation is refused iff the limit is reached; the cache never exceeds its limit; mempool "
+             "elements return to their owner pool.",
+        design_ref="5/C27"),
+    "C28": dict(
+        engine="rc+fuzz+exhaustive",
+        technique="model-based property testing of the zone allocator against a unit-array model (rapidcheck, exhaustive small zones, libFuzzer with the same oracle)",
+        text="malloc/free sequences on zones of 1..512 units (unit sizes 1/8/512, byte sizes not multiple of the unit). Oracle: returned address "
+             "inside the zone, unit-aligned, large enough, disjoint from live blocks; NULL iff the model has no free run of enough units (so "
+             "missing merges show); in-use count equals the live sum; payload tags intact. All effective sequences up to length 6 on zones of "
+             "<= 7 units (<= 4 on <= 16 units) are enumerated.",
+        design_ref="5/C28"),
+    "C31": dict(
+        engine="rc+exhaustive+dsched+stress",
+        technique="model-based sequences vs a vector model (forward and backward links), exhaustive small sorted inputs, schedule-owned linearizability for locked variants, stress conservation",
+        text="list/dequeue/fifo/ring operations including push_sorted, chain_sorted, sort and ring sorted insertion are compared with a vector "
+             "model after every step (prev links too): exact stable positions for sorted insertion, permutation + monotone order for sort. Locked "
+             "variants run under generated schedules with a deque linearizability oracle; every program of 2 threads x 2 ops with <= 2 preemptions "
+             "and all small sorted inputs are enumerated.",
+        design_ref="5/C31"),
+    "C32": dict(
+        engine="dsched+rc+stress",
+        technique="schedule-owned concurrency testing of the hash table with per-key Wing&Gong linearizability across forced resizes; bounded-exhaustive schedules; 16-thread stress",
+        text="Tables with tiny initial size and collision hints (resize every few inserts), engineered collisions, insert/find/remove and the "
+             "lock_bucket+nolock_find+nolock_insert idiom from 2..3 threads under generated schedules. Oracle: each key's history is linearizable "
+             "as a register-like map entry, including hits on items still living in old tables; quiescent for_all visits each item once. 512 "
+             "two-thread programs x all schedules with <= 1 preemption are enumerated.",
+        design_ref="5/C32"),
+    "C35": dict(
+        engine="rc+exhaustive+dsched+stress",
+        technique="model-based sequences on hbbuffers (two levels + parent store) and max-heaps with multiset conservation and heap-shape oracles; tiny scopes exhaustive; dsched/stress for loss/duplication",
+        text="push_all / push_all_by_priority / pop_best on hierarchical buffers with overflow into a checking parent store, and "
+             "heap_insert / heap_remove / heap_split_and_steal on heap forests. Oracle: everything pushed is in exactly one place, quiescent "
+             "pop_best returns a maximal element, heaps keep heap order, size and top priority after every operation and return every task once "
+             "across splits.",
+        design_ref="5/C35"),
+    "C39": dict(
+        engine="rc+fuzz",
+        technique="round-trip and vector-model property testing of argv utilities and an option-table model of cmd_line (rapidcheck + libFuzzer, ASan)",
+        text="split/join round trips over strings with delimiter runs and fields longer than the internal buffer, insert/delete/append/prepend "
+             "against a std::vector model (positions inside, at and beyond the end), and generated option tables + command lines (combined "
+             "shorts, parameters, '--' tail, unknown tokens) against an option model. Where the header is silent both readings are accepted and labelled.",
+        design_ref="5/C39"),
     "C23": dict(
         engine="ptg(E5)+hypothesis",
         technique="generated parameter spaces; key distinctness and key_print round-trip oracle on the generated make_key/key_print",
